@@ -277,6 +277,53 @@ fn ffi_call_sequences(ctx: &Ctx) {
     }
 }
 
+
+/// `kmon c18-ffi-child <tier> <seed>`: the lanes that call the C function inside the calling process.
+pub fn ffi_child_main(args: &[String]) {
+    let tier = if args.get(2).map(|s| s.as_str()) == Some("thorough") { crate::ctx::Tier::Thorough } else { crate::ctx::Tier::Quick };
+    let seed: u64 = args.get(3).and_then(|s| s.parse().ok()).unwrap_or(1);
+    let ctx = Ctx::new("C18", tier, seed, "exploration");
+    let body = std::panic::catch_unwind(std::panic::AssertUnwindSafe(|| {
+        ffi_canaries(&ctx);
+        ffi_call_sequences(&ctx);
+    }));
+    if body.is_err() {
+        ctx.inconclusive("the monitor itself panicked in the C ABI lanes");
+    }
+    ctx.emit_child();
+}
+
+/// The C function is called inside a CHILD of the monitor: if a call takes the process down (abort across the C
+/// boundary, segmentation fault) that is an observation about the function - "writes exactly that value ... and touches
+/// nothing else" - not the end of the monitor.
+fn ffi_lanes_in_a_child(ctx: &Ctx) {
+    let exe = match std::env::current_exe() {
+        Ok(e) => e,
+        Err(_) => {
+            ctx.inconclusive("C18: cannot find the monitor's own executable");
+            return;
+        }
+    };
+    let wd = WorkDir::new("c18ffi");
+    let seed_s = ctx.seed.to_string();
+    let mut c = crate::cli::Cmd::new(&wd.path, &["c18-ffi-child", ctx.tier.name(), &seed_s]).bin(exe).env("VERIF_ROOT", &verif_root());
+    for k in ["KESTREL_FFI_SO", "KESTREL_FFI_A", "HOME", "PATH", "LD_LIBRARY_PATH"] {
+        if let Ok(v) = std::env::var(k) {
+            c = c.env(k, &v);
+        }
+    }
+    c.timeout = std::time::Duration::from_secs(ctx.tier.pick(900, 7200));
+    let o = c.run();
+    if ctx.absorb(&o.stdout_s(), "in-process C ABI") {
+        ctx.seen("C ABI lanes ran in a child process to the end");
+    } else {
+        match &o.exit {
+            crate::cli::Exit::Timeout => ctx.inconclusive("C18 C ABI child: watchdog fired"),
+            other => ctx.violation(&format!("C18:ffi:a-call-of-the-C-function-took-the-process-down:{}", other.describe().replace(' ', "-")), json!({"exit": other.describe(), "stderr": o.stderr_s().chars().take(1500).collect::<String>(), "note": "the child process that dlopens the library and calls scrypt() with exact-size buffers did not finish"})),
+        }
+    }
+}
+
 fn compile_driver(ctx: &Ctx, wd: &WorkDir, cc: &str, extra: &[&str], lib: &[&str], out: &str) -> Option<PathBuf> {
     let exe = wd.file(out);
     let src = format!("{}/harness/ffi-driver/drv.c", verif_root());
@@ -492,8 +539,7 @@ pub fn run(ctx: &Ctx) {
     ctx.assume("memory limit: tuples with 128*N*r > 64 MiB are not driven");
     call_sequences(ctx);
     library_grid(ctx);
-    ffi_canaries(ctx);
-    ffi_call_sequences(ctx);
+    ffi_lanes_in_a_child(ctx);
     driver_lanes(ctx);
     miri_lanes(ctx);
     ctx.require("library scrypt == OpenSSL", 300);
